@@ -92,10 +92,9 @@ def run(ctx):
         ctx.ob("E6.recompute", "r1", {"c1", "challenge", "blinder_proof", "G"} <= d1 and "c2" not in d1, "verifier's r1 depends on %s (want c1, challenge, blinder_proof, G)" % sorted(d1), where=where(vf))
         ctx.ob("E6.recompute", "r2", {"c2", "challenge", "message_proof", "blinder_proof", "pk", "generator"} <= d2, "verifier's r2 depends on %s (want c2, challenge, message_proof, blinder_proof, pk, generator)" % sorted(d2), where=where(vf))
         # accept iff challenge == recomputed
-        oks = R.ok_blocks(vf)
+        oks = R.ok_exits(P, vf, ev)
         good = bool(oks)
-        for b in oks:
-            lits = G.path_literals(ev, b, P)
+        for b, lits in oks:
             hit = False
             for atom, pol in lits:
                 if atom[0] == "atom" and atom[1] == "eq":
@@ -140,7 +139,11 @@ def run(ctx):
     ss = ctx.need_fn("E6.seal", "BlsElGamal::seal_scalar")
     if ss is not None:
         ev = evaluate(ss)
+        from ..core.sym import inline
+
         oks = [strip_sites(ev.exit_state[b].get(0)) for b in R.ok_blocks(ss)]
+        # or: seal_scalar hands (pk, H*m, blinder, rng) to the sibling seal_point
+        oks.append(strip_sites(inline(P, ev.ret, 1, only=lambda g: g.key == "BlsElGamal::seal_point")))
         ok = False
         for v in oks:
             tup = [t for t in subterms(v) if t.op == "agg" and t.a[0][0] == "tuple" and len(t.a[1]) == 2]
